@@ -26,7 +26,7 @@ From ClapModel Require Import ParseProofs.Spelling ParseProofs.ErrorSound.
 From ClapModel Require Import Parse.Cmd Parse.Build Parse.Valid Complete.EngineModel Complete.EngineProofs.
 From ClapModel Require Import Complete.EngineAccept Complete.EngineFuel Complete.EngineComplete Complete.EngineLevel.
 From ClapModel Require ParseProofs.Chain ParseProofs.ActionsTop.
-From ClapModel Require Import Complete.EngineLine.
+From ClapModel Require Import Complete.EngineLine Complete.EnginePositional.
 From ClapModel Require Gen.EngineSites.
 From Coq Require Import ZArith.
 Open Scope N_scope.
@@ -454,3 +454,111 @@ Theorem C18_complete_options_alias_refuted : exists tbl w c pi l a s,
   existsb (fun y => opt_cid_eqb (cd_id y) (Some (IdArg (a_id a)))) l = false.
 Proof. exact complete_options_alias_refuted. Qed.
 Print Assumptions C18_complete_options_alias_refuted.
+
+(** * Round 3: positional value candidates, the hidden rule for values, after `--` *)
+
+(** the hidden rule for VALUES, state [Opt]: a declared value of any visibility extending the word is offered
+    unless a visible candidate is (for a visible value C18_value_candidates_complete says more) *)
+Theorem C18_value_candidates_complete_any : forall tbl w c pi o cnt l pvs v h pre v0,
+  complete_arg tbl w c pi (Opt o cnt) = COk l ->
+  possible_values tbl o = Some (Some pvs) -> In (v, h) pvs ->
+  utf8_valid v0 = true -> is_prefix v0 v = true ->
+  (pre = [] /\ v0 = w /\ rsplit_delimiter w (a_delim o) = None
+   \/ rsplit_delimiter w (a_delim o) = Some (pre, v0)) ->
+  In (mkCand (pre ++ v) None h) l \/ exists y, In y l /\ cd_hidden y = false.
+Proof. exact opt_state_complete_any. Qed.
+Print Assumptions C18_value_candidates_complete_any.
+
+(** state [ValueDone]: a candidate WITHOUT id is a value candidate of the positional at [pos_index] or comes from
+    [complete_option] (the `--flag=value` / `-fvalue` forms, see C18_long_value_sound) *)
+Theorem C18_noid_candidates_origin : forall tbl w c pi l y,
+  complete_arg tbl w c pi ValueDone = COk l -> In y l -> cd_id y = None ->
+  (exists p lv, find_pos c pi = Some p /\ complete_arg_value tbl w p = Some lv /\ In y lv)
+  \/ (exists opts, complete_option tbl w c = COk opts /\ In y opts).
+Proof. exact value_done_noid_origin. Qed.
+Print Assumptions C18_noid_candidates_origin.
+
+(** ... for a plain word (not starting with `-`): it is a DECLARED possible value of that positional, with its
+    declared hidden flag, behind the typed delimiter prefix, and extends the word *)
+Theorem C18_positional_values_sound : forall tbl b t c pi l y, b <> DASH ->
+  complete_arg tbl (b :: t) c pi ValueDone = COk l -> In y l -> cd_id y = None ->
+  exists p, find_pos c pi = Some p /\ is_prefix (b :: t) (cd_value y) = true /\
+    exists pre v pvs, possible_values tbl p = Some (Some pvs) /\ In (v, cd_hidden y) pvs /\ cd_value y = pre ++ v.
+Proof. exact positional_values_sound. Qed.
+Print Assumptions C18_positional_values_sound.
+
+(** every visible declared value of the positional at [pos_index] extending the last element of the word is offered *)
+Theorem C18_positional_values_complete : forall tbl w c pi l p pvs v pre v0,
+  complete_arg tbl w c pi ValueDone = COk l -> find_pos c pi = Some p ->
+  possible_values tbl p = Some (Some pvs) -> In (v, false) pvs ->
+  utf8_valid v0 = true -> is_prefix v0 v = true ->
+  (pre = [] /\ v0 = w /\ rsplit_delimiter w (a_delim p) = None
+   \/ rsplit_delimiter w (a_delim p) = Some (pre, v0)) ->
+  In (mkCand (pre ++ v) None false) l.
+Proof. exact positional_values_complete. Qed.
+Print Assumptions C18_positional_values_complete.
+
+(** ... and a hidden one unless a visible candidate is *)
+Theorem C18_positional_values_complete_any : forall tbl w c pi l p pvs v h pre v0,
+  complete_arg tbl w c pi ValueDone = COk l -> find_pos c pi = Some p ->
+  possible_values tbl p = Some (Some pvs) -> In (v, h) pvs ->
+  utf8_valid v0 = true -> is_prefix v0 v = true ->
+  (pre = [] /\ v0 = w /\ rsplit_delimiter w (a_delim p) = None
+   \/ rsplit_delimiter w (a_delim p) = Some (pre, v0)) ->
+  In (mkCand (pre ++ v) None h) l \/ exists y, In y l /\ cd_hidden y = false.
+Proof. exact positional_values_complete_any. Qed.
+Print Assumptions C18_positional_values_complete_any.
+
+(** state [Pos idx cnt] (a multi-value positional is being filled): candidates are values of the positional at
+    [pos_index], option candidates only once its minimum number of values is reached; nothing without a positional *)
+Theorem C18_pos_state_origin : forall tbl w c pi idx cnt l p y,
+  complete_arg tbl w c pi (Pos idx cnt) = COk l -> find_pos c pi = Some p -> In y l ->
+  (exists lv, complete_arg_value tbl w p = Some lv /\ In y lv) \/
+  (pos_min_reached p cnt = true /\ exists opts, complete_option tbl w c = COk opts /\ In y opts).
+Proof. exact pos_state_origin. Qed.
+Print Assumptions C18_pos_state_origin.
+
+Theorem C18_pos_state_complete : forall tbl w c pi idx cnt l p pvs v pre v0,
+  complete_arg tbl w c pi (Pos idx cnt) = COk l -> find_pos c pi = Some p ->
+  possible_values tbl p = Some (Some pvs) -> In (v, false) pvs ->
+  utf8_valid v0 = true -> is_prefix v0 v = true ->
+  (pre = [] /\ v0 = w /\ rsplit_delimiter w (a_delim p) = None
+   \/ rsplit_delimiter w (a_delim p) = Some (pre, v0)) ->
+  In (mkCand (pre ++ v) None false) l.
+Proof. exact pos_state_complete. Qed.
+Print Assumptions C18_pos_state_complete.
+
+Theorem C18_pos_state_none : forall tbl w c pi idx cnt,
+  find_pos c pi = None -> complete_arg tbl w c pi (Pos idx cnt) = COk [].
+Proof. exact pos_state_none. Qed.
+Print Assumptions C18_pos_state_none.
+
+(** after `--`: one step of the shadow parse descends on a subcommand name or counts a positional value - no token
+    is read as an option; the escape flag stays ... *)
+Theorem C18_escaped_step : forall arg cur pi st,
+  shadow_step arg cur pi true st =
+  match (if try_sub cur st && utf8_valid arg then find_subcommand cur arg else None) with
+  | Some next => SNext next 1 true ValueDone
+  | None => match parse_positional cur pi true st with
+            | Some (st', pi') => SNext cur pi' true st'
+            | None => SPanic 673
+            end
+  end.
+Proof. exact escaped_step. Qed.
+Print Assumptions C18_escaped_step.
+
+(** ... and a counted value leaves the state [Pos], never [ValueDone] *)
+Theorem C18_escaped_positional_state : forall cur pi st st' pi',
+  (match st with Opt _ _ => False | _ => True end) ->
+  parse_positional cur pi true st = Some (st', pi') -> exists i n, st' = Pos i n.
+Proof. exact escaped_positional_state. Qed.
+Print Assumptions C18_escaped_positional_state.
+
+(** the planned statement "after `--` only positional values are offered" is FALSE of the model (and of the crate):
+    `p -- <TAB>` offers `--opt` and `sub`, `p -- a <TAB>` offers `--opt` (outside the property: "before any `--`") *)
+Theorem C18_escape_only_positionals_refuted :
+  Esc.has_cand (dd ++ Esc.w_opt) (complete_model [] Esc.c0 [[112]; dd; []] 2) = true /\
+  Esc.has_cand Esc.w_sub (complete_model [] Esc.c0 [[112]; dd; []] 2) = true /\
+  Esc.has_cand (dd ++ Esc.w_opt) (complete_model [] Esc.c0 [[112]; dd; [97]; []] 3) = true.
+Proof. exact escape_offers_options. Qed.
+Print Assumptions C18_escape_only_positionals_refuted.
